@@ -493,7 +493,16 @@ func c16(args []string) int {
 							w.PartsOrder = cc.PartsOrder
 						}
 						w.PartsExclude, w.FieldsOrder, w.FieldsExclude = cc.PartsExclude, cc.FieldsOrder, cc.FieldsExclude
+						if nrend%3 == 1 {
+							// constructed with another configuration and reconfigured afterwards (below): the exported fields
+							// are the configuration
+							w.FieldsOrder, w.FieldsExclude, w.PartsExclude = []string{"zz-first", "k", "a"}, []string{"zz-none"}, nil
+						}
 					})
+					if nrend%3 == 1 {
+						cw.FieldsOrder, cw.FieldsExclude, cw.PartsExclude = cc.FieldsOrder, cc.FieldsExclude, cc.PartsExclude
+						out.Count("writers_reconfigured_after_construction", 1)
+					}
 				}
 				n, werr := cw.Write(w.P)
 				first := append([]byte{}, ob.Bytes()...)
